@@ -337,8 +337,6 @@ def run(prog: Program, rep, thorough: bool) -> None:
             if isinstance(got, Tup) and len(got.items) == 2:
                 got = ev.lift(lambda *xs: Tup(list(xs)), *got.items)
             cached = is_cached(got)
-            if not cached and not isinstance(got, (Tup, Cond)):
-                raise AnalysisError(f'get_density_factor_and_mach_for_altitude at {d_} ft from the station evaluates to {got!r}')
             if isinstance(got, Cond) and any(is_cached(x_) for _p, x_ in cond_leaves(got)):
                 raise AnalysisError('the near-station test of get_density_factor_and_mach_for_altitude depends on more than the '
                                     'distance from the station: not readable by sampling')
